@@ -104,7 +104,10 @@ func genOp(r *kit.Rand, slots []*cluster.SlotSpec) *op {
 	set := func(name string) { o.Opts[name] = true }
 	real := slots[:len(slots)-1]
 	// ---- targeting (common to the four calls)
-	o.User = kit.Pick(r, []string{"u1", "u1", "u1", "u2", "u2", "", "", "ghost"})
+	o.User = real[r.Intn(len(real))].User
+	if r.Chance(1, 8) {
+		o.User = kit.Pick(r, []string{"u1", "u2", "", "ghost"})
+	}
 	if o.User == "" && r.Chance(2, 3) || o.User != "" && r.Chance(1, 10) {
 		set("all-users")
 	}
@@ -162,6 +165,13 @@ func genOp(r *kit.Rand, slots []*cluster.SlotSpec) *op {
 		}
 		if p(1, 4, "recover-since") {
 			o.SinceOffset = kit.Pick(r, []uint64{0, 1, 2, 3, 3, 9})
+			if cache {
+				// a position at or beyond the stream top (or of another epoch) recovers nothing in stream mode:
+				// there the option has no observable effect at all, which would make the
+				// attribution of a lost cache mode ambiguous
+				o.SinceOffset = kit.Pick(r, []uint64{0, 1, 2})
+				o.SinceEpoch = "" // an unknown epoch recovers nothing in stream mode either
+			}
 			o.SinceEpoch = kit.Pick(r, []string{"", "", "", "bogus"})
 		}
 		if p(1, 4, "history-meta-ttl") {
@@ -286,12 +296,13 @@ func execute(c *kit.Case, pl *plan, upTo int, removed map[string]bool) runResult
 			m.NewEvents()
 		}
 	}
+	seenClosed := map[*cluster.Member]bool{}
 	for i := 0; i <= upTo; i++ {
 		rm := map[string]bool{}
 		if i == upTo {
 			rm = removed
 		}
-		eff, affected, callErr := runOp(p, pl, i, pl.Ops[i], rm)
+		eff, affected, callErr := runOp(p, seenClosed, i, pl.Ops[i], rm)
 		res.perOp = append(res.perOp, eff)
 		res.affected = append(res.affected, affected)
 		res.callErr = append(res.callErr, callErr)
@@ -305,7 +316,7 @@ func alignToSecond() {
 	time.Sleep(next.Sub(now))
 }
 
-func runOp(p *cluster.Pair, pl *plan, idx int, o *op, removed map[string]bool) (effects, bool, string) {
+func runOp(p *cluster.Pair, seenClosed map[*cluster.Member]bool, idx int, o *op, removed map[string]bool) (effects, bool, string) {
 	eff := effects{map[string][]string{}, map[string][]string{}}
 	alignToSecond()
 	p.W.Settle()
@@ -472,16 +483,46 @@ func runOp(p *cluster.Pair, pl *plan, idx int, o *op, removed map[string]bool) (
 		for ni, ms := range p.Members {
 			for _, m := range ms {
 				var lines []string
-				for _, f := range m.NewFrames() {
+				frames := m.NewFrames()
+				events := m.NewEvents()
+				// Joins and leaves of OTHER connections race with this connection's own
+				// (un)subscribe or close within the same phase: whether it still / already
+				// listens when they are broadcast is scheduling, not the call's effect.
+				closedNow := false
+				touched := map[string]bool{}
+				if closed, _ := m.Closed(); closed && !seenClosed[m] {
+					closedNow = true
+				}
+				for _, f := range frames {
+					if f.Push != nil && (f.Push.Subscribe != nil || f.Push.Unsubscribe != nil) {
+						touched[f.Push.Channel] = true
+					}
+					if f.Push != nil && f.Push.Disconnect != nil {
+						closedNow = true
+					}
+				}
+				for _, e := range events {
+					if e.Kind == "unsubscribe" {
+						touched[e.Channel] = true
+					}
+				}
+				for _, f := range frames {
 					if phase == "call" && f.Push != nil && f.Push.Subscribe != nil && f.Push.Channel == o.Channel && f.Push.Subscribe.Epoch != "" {
 						pushEpoch[ni] = f.Push.Subscribe.Epoch
 					}
+					if f.Push != nil && (f.Push.Join != nil || f.Push.Leave != nil) {
+						own := f.Push.Join != nil && f.Push.Join.Info != nil && f.Push.Join.Info.Client == m.ID
+						if closedNow || (touched[f.Push.Channel] && !own) {
+							continue
+						}
+					}
 					lines = append(lines, phase+"| frame "+p.Canon(f))
 				}
-				for _, e := range m.NewEvents() {
+				for _, e := range events {
 					lines = append(lines, fmt.Sprintf("%s| callback %s ch=%q code=%d reason=%q server=%v", phase, e.Kind, e.Channel, e.Code, e.Reason, e.Server))
 				}
-				if closed, d := m.Closed(); closed && !strings.Contains(strings.Join(eff[ni][m.Slot.Name], "\n"), "transport closed") {
+				if closed, d := m.Closed(); closed && !seenClosed[m] {
+					seenClosed[m] = true
 					lines = append(lines, fmt.Sprintf("%s| transport closed code=%d reason=%q", phase, d.Code, d.Reason))
 				}
 				if len(lines) > 0 && phase == "call" {
@@ -674,10 +715,12 @@ func runCase(c *kit.Case) {
 			}
 			return len(diff(v.perOp[i][0], eff[1])) == 0
 		}
+		// every single option that explains the difference on its own is reported
+		// (e.g. auto cache recover only acts in cache recovery mode: losing either
+		// one loses the effect of both)
 		for _, a := range set {
 			if try(a) {
-				culprit = []string{a}
-				break
+				culprit = append(culprit, a)
 			}
 		}
 		if culprit == nil {
